@@ -115,6 +115,9 @@ pub enum Corrupt {
     MsgBit(u32),
     SigLen(u8),
     OtherKey,
+    /// key with one bit flipped AND a degenerate signature (0: R = neutral element, S = 0; 1: all zero; 2: honest R, S = 0;
+    /// 3: R = the corrupted key bytes, S = 0): when the key does not decode nothing may be accepted under it
+    KeyBitSpecialSig(u16, u8),
 }
 
 #[derive(Debug, Clone, Serialize, Deserialize)]
@@ -156,6 +159,17 @@ pub fn check_verify(ctx: &mut Ctx, c: &VerifyCase) -> Res {
             }
         }
         Corrupt::SigLen(n) => sig.resize(*n as usize, 0x5a),
+        Corrupt::KeyBitSpecialSig(b, kind) => {
+            pk[(*b as usize / 8) % 32] ^= 1 << (b % 8);
+            let mut special = vec![0u8; 64];
+            match kind % 4 {
+                0 => special[0] = 1,
+                1 => {}
+                2 => special[..32].copy_from_slice(&sig[..32]),
+                _ => special[..32].copy_from_slice(&pk),
+            }
+            sig = special;
+        }
         Corrupt::OtherKey => {
             let mut s2 = seed;
             s2[0] ^= 1;
@@ -197,6 +211,7 @@ pub fn check_verify(ctx: &mut Ctx, c: &VerifyCase) -> Res {
         Corrupt::MsgBit(_) => "msg-bit",
         Corrupt::SigLen(_) => "sig-len",
         Corrupt::OtherKey => "other-key",
+        Corrupt::KeyBitSpecialSig(..) => "key-bit+degenerate-signature",
     };
     ctx.class(&format!("verify:{}:{}", kind, if direct { "accepted" } else { "rejected" }));
     if !matches!(c.corrupt, Corrupt::None) {
@@ -221,6 +236,7 @@ fn check_triple_all_bits(ctx: &mut Ctx, t: &Triple) -> Res {
     }
     for b in 0..256u16 {
         check_verify(ctx, &mk(Corrupt::KeyBit(b)))?;
+        check_verify(ctx, &mk(Corrupt::KeyBitSpecialSig(b, (b % 4) as u8)))?;
     }
     let mlen: usize = t.chunks.iter().map(|c| c.0.len()).sum();
     if mlen > 0 {
@@ -258,6 +274,7 @@ pub fn run(ctx: &mut Ctx) -> Vec<Violation> {
         2 => any::<u32>().prop_map(Corrupt::MsgBit),
         1 => any::<u8>().prop_map(Corrupt::SigLen),
         1 => Just(Corrupt::OtherKey),
+        1 => (any::<u16>(), 0u8..4).prop_map(|(b, k)| Corrupt::KeyBitSpecialSig(b, k)),
     ];
     out.extend(run_prop(ctx, "verify", t.pick(40_000, 800_000), 1000, (seed32(), chunks(), corrupt).prop_map(|(seed, chunks, corrupt)| VerifyCase { seed, chunks, corrupt }), |ctx, c| check_verify(ctx, c)));
     out
